@@ -102,3 +102,19 @@ def _out_renamed(f):
   if not o or not n or not f.get('via_inserted'):
     return False
   return re.fullmatch(re.escape(o) + r'_(dequant|quantized)(_\d+)?', n) is not None
+
+
+@trigger('asym_range_exceeds_float32')
+def _f32_overflow(f):
+  if f.get('sym') is not False:
+    return False
+  span = max(float(f.get('max', 0)), 0.0) - min(float(f.get('min', 0)), 0.0)
+  return span > 3.4028234663852886e38
+
+
+@trigger('bmm_constant_weight_channelwise')
+def _bmm_cw(f):
+  from vf import modes as md
+  m = f.get('mode')
+  return (f.get('type') == 'BATCH_MATMUL' and m in md.MODES and
+          md.wcfg(m)['granularity'] == 'CHANNELWISE')
